@@ -20,6 +20,12 @@ def check(prog, ctx):
     r, exp = oracles.reference(prog, env)
     viol += oracles.compare_with_reference(env, r, exp, "C07.read")
     viol += oracles.restored(env)
+    if not viol:
+        env_b = oracles.again(prog, env)
+        if env_b is not None:
+            r_b, exp_b = oracles.reference(prog, env_b)
+            viol += oracles.second(oracles.lifo(env_b) + oracles.compare_with_reference(env_b, r_b, exp_b, "C07.read") + oracles.restored(env_b))
+            ctx.label("run-twice-on-one-scheduler")
     ctx.label("overrides-concurrent-across-flush", env.ov_span_flush > 0)
     ctx.label("read-after-that", env.reads_after_ov_flush > 0)
     ctx.label("reads", any(e[0] in ("read", "readattr") for rec in env.recs.values() for e in rec.got))
